@@ -107,6 +107,9 @@ def convert(t, var_names, assms, to_real, ctx):
         elif t.is_implies():
             return z3.Implies(rec(t.arg1), rec(t.arg))
         elif t.is_equals():
+            if isinstance(convert_type(t.arg.get_type(), ctx), tuple):
+                # == on Z3 function declarations is syntactic identity.
+                raise Z3Exception("convert: unsupported equality between functions " + repr(t))
             return rec(t.arg1) == rec(t.arg)
         elif t.is_conj():
             return z3.And(rec(t.arg1), rec(t.arg)) if ctx is None else z3.And(rec(t.arg1), rec(t.arg), ctx)
